@@ -169,7 +169,9 @@ crate::harnesses! {
     #[kani::unwind(6)]
     c08_copy_from_be_u64 (quick, "MS -> BE,u64", "n<=2W+64, any writer state") => copy_from_step::<BE, u64, _, 192>;
     #[kani::unwind(6)]
-    c08_copy_from_be_u128 (quick, "MS -> BE,u128", "n<=130, any writer state") => copy_from_step::<BE, u128, _, 130>;
+    c08_copy_from_be_u128 (quick, "MS -> BE,u128", "n<=80, any writer state") => copy_from_step::<BE, u128, _, 80>;
+    #[kani::unwind(6)]
+    c08_copy_from_be_u128_n130 (thorough, "MS -> BE,u128", "n<=130, any writer state") => copy_from_step::<BE, u128, _, 130>;
     #[kani::unwind(6)]
     c08_copy_from_be_u128_n200 (thorough, "MS -> BE,u128", "n<=200, any writer state") => copy_from_step::<BE, u128, _, 200>;
     #[kani::unwind(13)]
@@ -181,7 +183,9 @@ crate::harnesses! {
     #[kani::unwind(6)]
     c08_copy_from_le_u64 (quick, "MS -> LE,u64", "n<=2W+64, any writer state") => copy_from_step::<LE, u64, _, 192>;
     #[kani::unwind(6)]
-    c08_copy_from_le_u128 (quick, "MS -> LE,u128", "n<=130, any writer state") => copy_from_step::<LE, u128, _, 130>;
+    c08_copy_from_le_u128 (quick, "MS -> LE,u128", "n<=80, any writer state") => copy_from_step::<LE, u128, _, 80>;
+    #[kani::unwind(6)]
+    c08_copy_from_le_u128_n130 (thorough, "MS -> LE,u128", "n<=130, any writer state") => copy_from_step::<LE, u128, _, 130>;
     #[kani::unwind(6)]
     c08_copy_from_le_u128_n200 (thorough, "MS -> LE,u128", "n<=200, any writer state") => copy_from_step::<LE, u128, _, 200>;
 }
